@@ -139,7 +139,7 @@ def ev_fold(case):
 
 # --------------------------------------------------------------------------- (ii) limit state machine
 SM_BOXES = {"b1": (0.5, 1.0), "b2": (-3.0, 5.0), "b3": (-1.0, 0.9)}
-SM_CALLS = ["b1", "b2", "b3", "rm", "nn1", "nn0"]
+SM_CALLS = ["b1", "b2", "b3", "rm", "nn1", "nn0", "bad"]  # "bad": set_boundaries with lower >= upper (refused with a warning)
 SM_START = 0.75
 OVERSHOOT = [-60.0, -7.3, -1.4, -0.3, 0.0, 0.2, 0.9, 4.1, 33.0]
 
@@ -163,7 +163,9 @@ def ev_limits(case):
         return 0.0
 
     def apply(ch, c):
-        if c in SM_BOXES:
+        if c == "bad":
+            ch.set_boundaries(0, (2.0, -0.5))  # refused: the limits in force must stay what they were
+        elif c in SM_BOXES:
             ch.set_boundaries(0, SM_BOXES[c])
         elif c == "rm":
             ch.set_boundaries(0, None, remove=True)
@@ -178,6 +180,8 @@ def ev_limits(case):
             box = SM_BOXES[c]
         elif c == "rm":
             box = None
+        elif c == "bad":
+            pass
         else:
             nn = c == "nn1"
         lo = -math.inf if box is None else box[0]
@@ -206,7 +210,7 @@ def ev_limits(case):
             tol = 0.0 if not math.isfinite(lo + hi) else ulp_tol(lo if math.isfinite(lo) else 0.0, hi if math.isfinite(hi) else 0.0)
             if not (lo - tol <= v0 <= hi + tol):
                 which = ("box+nonneg" if (box is not None and nn) else "box" if box is not None else "nonneg")
-                lastkind = "after-" + ("set_boundaries" if c in SM_BOXES else {"rm": "remove", "nn1": "set_non_negative(True)", "nn0": "set_non_negative(False)"}[c])
+                lastkind = "after-" + ("set_boundaries" if c in SM_BOXES else {"rm": "remove", "nn1": "set_non_negative(True)", "nn0": "set_non_negative(False)", "bad": "refused-set_boundaries"}[c])
                 add_fail(f"limits/GibbsChain/{which}-in-force-but-proposal-outside/{lastkind}",
                          f"after {seq[: i + 1]} limits in force are [{lo},{hi}] but raw proposal {raw} was evaluated at {v0!r}", prefix=seq[: i + 1], raw=raw)
             if box is None and not nn and v0 != raw:
